@@ -25,3 +25,28 @@ func H_C19_srp() {
 	verifrt.Assert(src == "crypto,input", "srp-ephemeral-drawn-from-the-OS-random-source-only")
 	verifrt.Assert(verifrt.NonConstant(ans.GA), "srp-ephemeral-is-not-a-constant")
 }
+
+// H_C19_srp_source_failure: as H_C19_srp with an OS random source that may fail at any draw: refusal (panic or
+// error) or an ephemeral that still comes from the OS source only.
+func H_C19_srp_source_failure() {
+	verifrt.RandMayFail()
+	P := verifrt.Bytes(256)
+	verifrt.Assume(P[0] >= 0x80)
+	srpB := verifrt.Bytes(256)
+	B := rBig(srpB)
+	verifrt.Assume(B.Sign() != 0)
+	verifrt.Assume(B.Cmp(rBig(P)) < 0)
+	mp := &ModPow{Salt1: []byte{1}, Salt2: []byte{2}, G: 3, P: P}
+	var ans *SrpAnswer
+	var err error
+	pn := verifrt.Catch(func() { ans, err = GetInputCheckPassword("pw", srpB, mp) })
+	if pn || err != nil || ans == nil {
+		verifrt.Cover("refused")
+		verifrt.Assert(true, "failing-source-is-refused-or-not-used")
+		return
+	}
+	verifrt.Cover("delivered")
+	src := verifrt.Sources(ans.GA)
+	verifrt.Note("SRP A depends on: [" + src + "]")
+	verifrt.Assert(src == "crypto,input", "srp-failing-source-never-replaced-by-another-generator")
+}
